@@ -161,6 +161,17 @@ static void handler(const Line& t, Out& o) {
     else g.s2.reset(new K2::sk_t(*b.s2));
     regs[(long)t.at(1)] = std::move(g);
     o.R(1); break; }
+  case 15: case 16: { // r = r2 (15: copy assignment, 16: move assignment, r2 dropped): operator= on an existing sketch
+    if (t.at(1) == t.at(2)) throw std::invalid_argument("self assignment not exercised");
+    Reg& a = get(t.at(1)); Reg& b = get(t.at(2));
+    if (a.kind != b.kind) throw std::invalid_argument("kinds differ");
+    if (op == 15) {
+      if (a.kind == 0) *a.s0 = *b.s0; else if (a.kind == 1) *a.s1 = *b.s1; else *a.s2 = *b.s2;
+    } else {
+      if (a.kind == 0) *a.s0 = std::move(*b.s0); else if (a.kind == 1) *a.s1 = std::move(*b.s1); else *a.s2 = std::move(*b.s2);
+      regs.erase((long)t.at(2));
+    }
+    o.R(1); break; }
   case 97: o.R(1); o.F((I)vh::source().scripted.size()); break;
   default: {
     Reg& g = get(t.at(1));
